@@ -83,7 +83,7 @@ def run(ctx):
         badset = set(bad)
         for i, c in enumerate(enc_cases):
             if i not in badset:
-                R.decode_oracle(ctx, c, 'decodes-image', 'C02_decodes_image', 'Cassandra\'s encoding of x does not decode to x')
+                R.decode_oracle(ctx, c, 'decodes-image', 'C02_decodes_image', 'Cassandra\'s encoding of x does not decode to x', api=False)
     except RuntimeError as e:
         ctx.proof_broken.append(('oracle:CassandraSpec', str(e)[-800:]))
     T['spec_oracle'] = round(time.time() - t0, 1); t0 = time.time()
@@ -105,6 +105,14 @@ def run(ctx):
     except RuntimeError as e:
         ctx.proof_broken.append(('oracle:CassandraSpecInt', str(e)[-800:]))
     T['model+marshal'] = round(time.time() - t0, 1); t0 = time.time()
+    # ---- util.Date(datetime): the calendar day containing the instant (floor), against calendar and model
+    try:
+        exprs, meta = R.date_input_cases(ctx, ctx.rng, 20 if quick else 400)
+        bad = ctx.coq_filter(R.MODEL_REQ, '(fun b : bool => b)', exprs, shard=200)
+        for i in bad[:5]:
+            ctx.disagreement('model-vs-impl.date_days_of_seconds', 'Model date_days_of_seconds differs from util.Date at %r' % (meta[i],), case={'fn': meta[i][0], 'secs': meta[i][1]}, actual=meta[i][2])
+    except RuntimeError as e:
+        ctx.proof_broken.append(('correspondence:date_days_of_seconds', str(e)[-600:]))
     try:
         MV.validate(ctx, parts=('marshal',))
     except Exception as e:
@@ -145,13 +153,25 @@ def run(ctx):
 
 def replay(ctx, rp):
     case = rp.get('case') or {}
+    if case.get('fn') == 'date-of-datetime':
+        import datetime
+        from cassandra import util
+        dt = G.EPOCH + datetime.timedelta(days=case['days'], seconds=case['tod'])
+        got, want = util.Date(dt).days_from_epoch, (dt.date() - datetime.date(1970, 1, 1)).days
+        print('replay util.Date(%s).days_from_epoch = %d, calendar day %d' % (dt.isoformat(), got, want))
+        print(('VIOLATION property=C02 replay=%s' % ctx.replay_path) if got != want else 'not reproduced')
+        return 1 if got != want else 0
     if 'v' not in case:
         print('nothing to replay against the driver: %s' % rp.get('theorem'))
         return 1
-    c = R.run_case(case['pv'], case['t'], case['v'])
+    import random
+    # a `date` can be handed over as util.Date, datetime (any time of day), date or string: try the input kinds in turn
+    tries = [R.run_case(case['pv'], case['t'], case['v'], random.Random(k)) for k in range(12)] if G.contains_scalar(case['t'], 'date') \
+        else [R.run_case(case['pv'], case['t'], case['v'])]
+    verdicts = ctx.coq_eval(R.MODEL_REQ, R.spec_exprs(tries))
+    same = all(x.strip() == 'true' for x in verdicts)
+    c = tries[[x.strip() == 'true' for x in verdicts].index(False)] if not same else tries[0]
     spec = ctx.coq_eval(R.MODEL_REQ, ['spec_result %s %s %s' % (G.gz(c['pv']), G.gtype(c['t']), G.gvalue(c['v']))])[0]
-    got = G.gobytes(c['enc'])
-    same = ctx.coq_eval(R.MODEL_REQ, R.spec_exprs([c]))[0].strip() == 'true'
     print('replay pv=%s type=%s value=%s' % (case['pv'], json.dumps(case['t']), json.dumps(case['v'])[:300]))
     print('  driver: %s\n  specification: %s' % (bytes(c['enc']).hex() if c['enc'] is not None else 'raises ' + c['enc_exc'], spec[:400]))
     print(('VIOLATION property=C02 replay=%s' % ctx.replay_path) if not same else 'not reproduced')
